@@ -9,7 +9,7 @@ Import ListNotations.
 Definition registered (ch : nat) (w : waker) (H : heap) : Prop :=
   ch_wk (gch ch H) = Some w /\ ch < length (chans H).
 Definition sub_ok (w : waker) (q : subreq) (H : heap) : Prop :=
-  match q with SQ _ false _ _ ch => registered ch w H | _ => True end.
+  match q with SQ _ false _ _ ch => registered ch w H | SL _ _ _ ch => registered ch w H | _ => True end.
 Definition woken_of (w : waker) (H : heap) : Prop :=
   match w with WCmd _ _ g => getd false g (woken H) = true | WExec _ => True end.
 
@@ -43,6 +43,8 @@ Qed.
 Lemma registered_same_chans ch w H H' : chans H' = chans H -> registered ch w H -> registered ch w H'.
 Proof. unfold registered, gch. intros ->. auto. Qed.
 Lemma registered_push_eff ch w c e H : registered ch w H -> registered ch w (push_eff c e H).
+Proof. apply registered_same_chans. reflexivity. Qed.
+Lemma registered_push_hout ch w e H : registered ch w H -> registered ch w (push_hout e H).
 Proof. apply registered_same_chans. reflexivity. Qed.
 Lemma registered_note ch w n H : registered ch w H -> registered ch w (note n H).
 Proof. apply registered_same_chans. reflexivity. Qed.
@@ -84,18 +86,36 @@ Proof.
 Qed.
 Lemma sub_poll_ok c w q H q' H' : sub_poll c w q H = (q', H') -> sub_ok w q' H'.
 Proof.
-  unfold sub_poll. destruct q as [sent dead tg v ch|m]; [|intros E; inversion E; subst; exact I].
-  destruct (req_poll c w sent dead tg v ch H) as [[[o s'] d'] H1] eqn:E1.
-  destruct o; intros E; inversion E; subst; [exact I|].
-  unfold sub_ok. destruct d'; [exact I|]. eapply req_poll_registers; eauto.
+  unfold sub_poll. destruct q as [sent dead tg v ch|m|sent tg v ch].
+  - destruct (req_poll c w sent dead tg v ch H) as [[[o s'] d'] H1] eqn:E1.
+    destruct o; intros E; inversion E; subst; [exact I|].
+    unfold sub_ok. destruct d'; [exact I|]. eapply req_poll_registers; eauto.
+  - intros E; inversion E; subst; exact I.
+  - match goal with |- context[ch_buf (gch ch ?Hx)] => destruct (ch_buf (gch ch Hx)) end; intros E; inversion E; subst.
+    + unfold sub_ok. apply registered_chan_reg.
+    + exact I.
+Qed.
+Lemma sub_ok_keep w q0 H H' :
+  (forall ch0, registered ch0 w H -> registered ch0 w H') -> sub_ok w q0 H -> sub_ok w q0 H'.
+Proof.
+  intros K. unfold sub_ok. destruct q0 as [s0 d0 t0 v0 c0|m0|s0 t0 v0 c0].
+  - destruct d0; [auto | apply K].
+  - auto.
+  - apply K.
 Qed.
 Lemma sub_poll_keeps c w q H q' H' q0 : sub_poll c w q H = (q', H') -> sub_ok w q0 H -> sub_ok w q0 H'.
 Proof.
-  unfold sub_poll. destruct q as [sent dead tg v ch|m]; [|intros E; inversion E; subst; auto].
-  destruct (req_poll c w sent dead tg v ch H) as [[[o s'] d'] H1] eqn:E1.
-  intros E R. assert (H' = H1) by (destruct o; inversion E; reflexivity). subst H1.
-  unfold sub_ok in *. destruct q0 as [s0 d0 t0 v0 c0|]; [|exact I]. destruct d0; [exact I|].
-  eapply req_poll_keeps; eauto.
+  unfold sub_poll. destruct q as [sent dead tg v ch|m|sent tg v ch].
+  - destruct (req_poll c w sent dead tg v ch H) as [[[o s'] d'] H1] eqn:E1.
+    intros E. assert (H' = H1) by (destruct o; inversion E; reflexivity). subst H1.
+    apply sub_ok_keep. intros ch0. eapply req_poll_keeps; eauto.
+  - intros E; inversion E; subst; auto.
+  - set (H1 := if sent then H else push_hout (mkEff tg v [] (RLegacy ch)) H).
+    assert (K1 : forall ch0, registered ch0 w H -> registered ch0 w H1)
+      by (intros ch0 R; subst H1; destruct sent; [exact R | apply registered_push_hout, R]).
+    destruct (ch_buf (gch ch H1)); intros E; inversion E; subst; apply sub_ok_keep; intros ch0 R.
+    + apply registered_chan_reg_other, K1, R.
+    + apply registered_chan_drop_rx, K1, R.
 Qed.
 
 (* ---------- woken flags only ever go from false to true ---------- *)
@@ -167,6 +187,7 @@ Proof.
     + apply IH in E; exact E.
     + destruct (new_chan H) as [ch1 H1]. destruct (new_chan H1) as [ch2 H2]. apply IH in E; exact E.
     + destruct (new_chan H) as [ch1 H1]. destruct (new_chan H1) as [ch2 H2]. apply IH in E; exact E.
+    + destruct (new_chan H) as [ch1 H1]. destruct (new_chan H1) as [ch2 H2]. apply IH in E; exact E.
     + destruct (new_cmd _ _ _ _ _ _) as [cid H1]. apply IH in E; exact E.
   - (* LReq *)
     destruct (req_poll c w sent dead tg v ch H) as [[[o s'] d'] H1] eqn:E1.
@@ -201,18 +222,23 @@ Proof.
     destruct (sub_poll c w qa H) as [a' H1] eqn:E1. destruct (sub_poll c w qb H1) as [b' H2] eqn:E2.
     pose proof (sub_poll_ok _ _ _ _ _ _ E1) as Oa. pose proof (sub_poll_keeps _ _ _ _ _ _ a' E2 Oa) as Oa2.
     pose proof (sub_poll_ok _ _ _ _ _ _ E2) as Ob.
-    destruct a'; [inversion E; subst; unfold post; simpl; split; assumption|].
-    destruct b'; [inversion E; subst; unfold post; simpl; split; assumption|].
+    destruct a'; try (inversion E; subst; unfold post; simpl; split; assumption).
+    destruct b'; try (inversion E; subst; unfold post; simpl; split; assumption).
     apply IH in E; exact E.
   - (* LRace *)
     destruct (sub_poll c w qa H) as [a' H1] eqn:E1.
     pose proof (sub_poll_ok _ _ _ _ _ _ E1) as Oa.
-    destruct a'; [|apply IH in E; exact E].
-    destruct (sub_poll c w qb H1) as [b' H2] eqn:E2.
-    pose proof (sub_poll_keeps _ _ _ _ _ _ (SQ sent dead tg v ch) E2 Oa) as Oa2.
-    pose proof (sub_poll_ok _ _ _ _ _ _ E2) as Ob.
-    destruct b'; [|apply IH in E; exact E].
-    inversion E; subst. unfold post; simpl. split; assumption.
+    destruct a' as [sent dead tg v ch|m|sent tg v ch]; [|apply IH in E; exact E|].
+    + destruct (sub_poll c w qb H1) as [b' H2] eqn:E2.
+      pose proof (sub_poll_keeps _ _ _ _ _ _ (SQ sent dead tg v ch) E2 Oa) as Oa2.
+      pose proof (sub_poll_ok _ _ _ _ _ _ E2) as Ob.
+      destruct b'; try (inversion E; subst; unfold post; simpl; split; assumption).
+      apply IH in E; exact E.
+    + destruct (sub_poll c w qb H1) as [b' H2] eqn:E2.
+      pose proof (sub_poll_keeps _ _ _ _ _ _ (SL sent tg v ch) E2 Oa) as Oa2.
+      pose proof (sub_poll_ok _ _ _ _ _ _ E2) as Ob.
+      destruct b'; try (inversion E; subst; unfold post; simpl; split; assumption).
+      apply IH in E; exact E.
 Qed.
 
 Theorem poll_registers : forall fuel, spec_post (funs fuel).
@@ -237,7 +263,7 @@ Proof.
   - apply existsb_exists. exists (WCmd c s g). split; [exact I|]. simpl. apply Nat.eqb_refl.
 Qed.
 (* what the task may be blocked on when it is evicted *)
-Definition closed_sub (q : subreq) : Prop := match q with SQ _ dead _ _ _ => dead = true | SDone _ => True end.
+Definition closed_sub (q : subreq) : Prop := match q with SQ _ dead _ _ _ => dead = true | SDone _ => True | SL sent _ _ _ => False end.
 Definition evictable (fs' : fstate) : Prop :=
   match f_leaf fs' with
   | LReq _ dead _ _ _ _ _ => dead = true
@@ -301,13 +327,17 @@ Proof.
     + unfold woken_of, w in P. assert (EW' : getd false g (woken H2) = false) by exact EW. rewrite P in EW'. discriminate.
     + exfalso. rewrite (holds_ucmd_of_chan g cid _ H2 lch w P Gw) in EHo'. discriminate.
     + destruct P as (Pa & Pb). split.
-      * destruct qa as [s d tg v ch|m]; [|exact I]. simpl. destruct d; [reflexivity|]. exfalso.
+      * destruct qa as [s d tg v ch|m|s tg v ch]; [|exact I|exfalso; rewrite (holds_ucmd_of_chan g cid _ H2 ch w Pa Gw) in EHo'; discriminate].
+        simpl. destruct d; [reflexivity|]. exfalso.
         rewrite (holds_ucmd_of_chan g cid _ H2 ch w Pa Gw) in EHo'. discriminate.
-      * destruct qb as [s d tg v ch|m]; [|exact I]. simpl. destruct d; [reflexivity|]. exfalso.
+      * destruct qb as [s d tg v ch|m|s tg v ch]; [|exact I|exfalso; rewrite (holds_ucmd_of_chan g cid _ H2 ch w Pb Gw) in EHo'; discriminate].
+        simpl. destruct d; [reflexivity|]. exfalso.
         rewrite (holds_ucmd_of_chan g cid _ H2 ch w Pb Gw) in EHo'. discriminate.
     + destruct P as (Pa & Pb). split.
-      * destruct qa as [s d tg v ch|m]; [|exact I]. simpl. destruct d; [reflexivity|]. exfalso.
+      * destruct qa as [s d tg v ch|m|s tg v ch]; [|exact I|exfalso; rewrite (holds_ucmd_of_chan g cid _ H2 ch w Pa Gw) in EHo'; discriminate].
+        simpl. destruct d; [reflexivity|]. exfalso.
         rewrite (holds_ucmd_of_chan g cid _ H2 ch w Pa Gw) in EHo'. discriminate.
-      * destruct qb as [s d tg v ch|m]; [|exact I]. simpl. destruct d; [reflexivity|]. exfalso.
+      * destruct qb as [s d tg v ch|m|s tg v ch]; [|exact I|exfalso; rewrite (holds_ucmd_of_chan g cid _ H2 ch w Pb Gw) in EHo'; discriminate].
+        simpl. destruct d; [reflexivity|]. exfalso.
         rewrite (holds_ucmd_of_chan g cid _ H2 ch w Pb Gw) in EHo'. discriminate.
 Qed.
